@@ -65,8 +65,12 @@ def selftest(rep):
         d = _scratch()
         try:
             if kind == 'patch':
-                r = subprocess.run(['patch', '-p1', '-s', '--no-backup-if-mismatch', '-d', d, '-i', what],
-                                   capture_output=True, text=True)
+                if shutil.which('patch'):
+                    r = subprocess.run(['patch', '-p1', '-s', '--no-backup-if-mismatch', '-d', d, '-i', what],
+                                       capture_output=True, text=True)
+                else:
+                    subprocess.run(['git', 'init', '-q', '.'], cwd=d, capture_output=True)
+                    r = subprocess.run(['git', 'apply', what], cwd=d, capture_output=True, text=True)
                 if r.returncode != 0:
                     res['not_applicable'].append(name + ' (patch does not apply to this tree)')
                     continue
